@@ -493,6 +493,7 @@ def _shared_gene_case(seed):
     try:
         pr = tp.GFFPrinter(d, "s", idp.FeatureIdStorage(idp.SimpleIDDistributor()), output_r2t=False)
         glo, ghi = 1000, 9000
+        rng2 = random.Random(seed * 29 + 11)
         strand = rng.choice("+-")
         ref = gi_mod.TranscriptModel("chr1", strand, "G.ref", "G", [(glo, glo + 200), (ghi - 200, ghi)], gi_mod.TranscriptModelType.known)
         dumped = {}
@@ -519,6 +520,13 @@ def _shared_gene_case(seed):
             ginfo.gene_regions = {}
             pr.dump(ginfo, models)
             desc["calls"].append([(m_.transcript_id, m_.exon_blocks[0][0], m_.exon_blocks[-1][1]) for m_ in models])
+            # between two islands of G, half of the time, an island that yields models of ANOTHER gene only (a gene nested in an intron of G)
+            if call < n_calls - 1 and rng2.random() < .5:
+                hb = b0 + 60
+                hm = gi_mod.TranscriptModel("chr1", strand, "h%d" % call, "H%d" % call, [(hb, hb + 40), (hb + 100, hb + 160)],
+                                            gi_mod.TranscriptModelType.novel_not_in_catalog)
+                pr.dump(gi_mod.GeneInfo.from_models([hm], 0), [hm])
+                desc["calls"].append([("h%d" % call, hb, hb + 160)])
         pr.out_gff.flush()
         gene_lines = []
         for line in open(pr.model_fname):
